@@ -165,7 +165,7 @@ def _pipe(lines, workdir, idx):
     with open(inp, "w") as f:
         f.write("\n".join(lines) + "\n")
     env = dict(os.environ, GOMEMLIMIT="3GiB")
-    hang_s = float(os.environ.get("VERIF_HANG_S", "240"))
+    hang_s = float(os.environ.get("VERIF_HANG_S", "120"))
     with open(inp) as fi, open(mid, "w") as fo, open(os.path.join(workdir, "err%d.txt" % idx), "w") as fe:
         p = subprocess.Popen([HARNESS], stdin=fi, stdout=fo, stderr=fe, env=env)
         # watchdog: the harness answers line by line (flushed); no new answer for hang_s seconds = the
@@ -193,7 +193,7 @@ def _pipe(lines, workdir, idx):
         impl.append(lines[crashed] + " => CRASH")
         if p.returncode == -9:
             _hangs.append(lines[crashed])
-        if len(_hangs) > 4:
+        if len(_hangs) > 2:
             # a tree on which many lines hang: the verdict is settled, do not spend hang_s on every further line
             lines = lines[:crashed + 1]
             rest = []
@@ -298,14 +298,16 @@ def known_match(finding, case):
     return bool(m)
 
 
-def shrink_tokens(line, still_fails, budget=120):
+def shrink_tokens(line, still_fails, budget=120, seconds=150):
     """Greedy delta-debugging on expression sub-trees inside a line: try to replace a
-    sub-expression by one of its children or by a small constant."""
+    sub-expression by one of its children or by a small constant.  Bounded by a number of tries and by time
+    (a candidate on which the implementation hangs costs a watchdog period)."""
     best = line
     toks = best.split()
     tries = 0
     improved = True
-    while improved and tries < budget:
+    deadline = time.time() + seconds
+    while improved and tries < budget and time.time() < deadline:
         improved = False
         toks = best.split()
         spans = expr_spans(toks)
@@ -316,7 +318,7 @@ def shrink_tokens(line, still_fails, budget=120):
                 continue
             cands = [toks[k0:k1] for (k0, k1) in kids] + [["c:00"], ["c:01"]]
             for c in cands:
-                if tries >= budget:
+                if tries >= budget or time.time() > deadline:
                     break
                 cand = " ".join(toks[:a] + c + toks[b:])
                 if len(cand) >= len(best):
